@@ -166,6 +166,8 @@ class Mon:
         orig_init = yctx.Context.__init__
 
         def ctx_init(self_, *a, **kw):
+            if len(mon.ctx_owner) > 200000:
+                mon.ctx_owner.clear()      # bounded: forgetting owners loses observations, never invents one
             mon.ctx_owner[id(self_)] = (threading.get_ident(), self_)
             mon.contexts_created += 1
             orig_init(self_, *a, **kw)
@@ -262,6 +264,7 @@ def run_schedule(mon, jobs, chooser):
         mon.lp.baton = b
     mon.armed = True
     mon.violations = []
+    mon.ctx_owner.clear()          # ownership is per schedule; keeping every context ever created alive exhausts memory
     try:
         res = b.run([(lambda j=j: mon.evaluate(*j)) for j in jobs])
     finally:
